@@ -2,7 +2,7 @@
    the ISO frame of Spec/IsoRequests.v; outside it they fail, so nothing is sent.  Arithmetic by lia; facts about
    the service table by computation over the regenerated Gen/ServiceTable.v. *)
 From Coq Require Import ZArith List Bool String Lia ZifyBool.
-From UDS Require Import Lib.Bytes Lib.ErrM Lib.PyOps Gen.Maps Spec.IsoRequests Model.Message Model.Client Model.Services
+From UDS Require Import Lib.Bytes Lib.ErrM Lib.PyOps Gen.Maps Gen.DtcGroups Spec.IsoRequests Model.Message Model.Client Model.Services
   Model.Helpers Model.MemLoc Model.Svc_Simple Model.Svc_Memory Model.Svc_Did Model.Svc_File Model.Svc_Dtc Model.History
   Proofs.Bytes_lemmas Proofs.C17_lemmas Proofs.C19_lemmas Proofs.C05_lemmas Proofs.Client_lemmas Proofs.C14_lemmas.
 Import ListNotations.
@@ -533,3 +533,172 @@ Lemma link_control_call cfg st ct b now s :
   run_inner cfg st (CLinkControl ct b) now s =
   single_request cfg st (x <- lc_arg b ;; lc_make_client ct x) (echo1_interpret ct) no_post now s.
 Proof. destruct b as [[r t]|]; reflexivity. Qed.
+
+(* ---- ReadDTCInformation: every report type, every argument combination, every edition ------------------------------ *)
+Lemma need_spec o hi : need o 0 hi = match o with Some v => if in_u v hi then inr v else inl EValue | None => inl EValue end.
+Proof.
+  unfold need, in_u. destruct o as [v|]; [|reflexivity].
+  destruct ((0 <=? v) && (v <=? hi)) eqn:E; [rewrite validate_int_in by lia|rewrite validate_int_out by lia]; reflexivity.
+Qed.
+
+Lemma dtc_all_bound sub : iso_in sub iso_dtc_all = true -> 1 <= sub <= 86.
+Proof.
+  unfold iso_in, iso_dtc_all. cbn [existsb]. intros H.
+  repeat (apply orb_true_iff in H as [H|H]; [lia|]). discriminate H.
+Qed.
+
+(* the library's grouping lists are ISO's *)
+Lemma grp_all : gen_dtc_subfunctions = iso_dtc_all. Proof. reflexivity. Qed.
+Lemma grp sub name l : group name = l -> in_group name sub = iso_in sub l.
+Proof. intros H. unfold in_group, iso_in. rewrite H. reflexivity. Qed.
+
+Definition sev_of (a : dtcargs) : option (option Z) := iso_severity_mask (da_severity a) (da_sev_obj a) (da_class a).
+
+Ltac opt_cases :=
+  repeat match goal with
+         | |- context [match ?o with Some _ => _ | None => _ end] => is_var o; destruct o
+         | |- context [in_u ?v ?hi] => destruct (in_u v hi) eqn:?
+         end.
+
+Lemma pack_B_u v : in_u v 255 = true -> pack_B v = inr (be_enc 1 v).
+Proof. unfold in_u. intros H. apply pack_B_enc. lia. Qed.
+Lemma pack_B_u239 v : in_u v 239 = true -> pack_B v = inr (be_enc 1 v).
+Proof. unfold in_u. intros H. apply pack_B_enc. lia. Qed.
+Lemma pack_B_u254 v : in_u v 254 = true -> pack_B v = inr (be_enc 1 v).
+Proof. unfold in_u. intros H. apply pack_B_enc. lia. Qed.
+Lemma pack_dtc_u v : in_u v 16777215 = true -> pack_dtc v = inr (be_enc 3 v).
+Proof. unfold in_u. intros H. unfold pack_dtc. apply three_bytes. lia. Qed.
+
+Lemma iso_in_single sub k : iso_in sub [k] = (sub =? k).
+Proof. unfold iso_in. cbn [existsb]. apply orb_false_r. Qed.
+
+Ltac body :=
+  rewrite ?need_spec; unfold iso_cat, iso_opt; cbn [fold_right]; opt_cases; cbn [bind ret fail];
+  try (eexists; reflexivity);
+  rewrite ?pack_dtc_u by assumption; cbn [bind ret];
+  repeat (first [rewrite pack_B_u by assumption | rewrite pack_B_u239 by assumption | rewrite pack_B_u254 by assumption]; cbn [bind ret]);
+  rewrite ?app_nil_r; exists 25, true; (split; [in_iso|]); apply frame_mk_req_sub; [in_iso|lia].
+
+Theorem rdtci_agrees st cfg sub a : sub <> 26 -> sub <> 86 ->
+  agrees st (rdtci_make cfg sub a)
+    (iso_read_dtc (std cfg) sub (da_status a) (da_severity a) (da_sev_obj a) (da_class a) (da_dtc a) (da_snap a) (da_ext a) (da_memsel a) (da_fgid a)).
+Proof.
+  intros N26 N86. unfold rdtci_make, iso_read_dtc, check_subfunction_valid.
+  rewrite grp_all. rewrite (grp sub "subfunction2020" iso_dtc_2020 eq_refl).
+  unfold in_u at 1.
+  destruct ((0 <=? sub) && (sub <=? 255) && (1 <=? sub)) eqn:Er; cbn [negb orb];
+    [rewrite validate_int_in by lia|rewrite validate_int_out by lia; eexists; reflexivity].
+  cbn [bind]. fold (iso_in sub iso_dtc_all).
+  destruct (iso_in sub iso_dtc_all) eqn:Eall; cbn [negb guard bind ret fail]; [|eexists; reflexivity].
+  pose proof (dtc_all_bound sub Eall) as Hb.
+  destruct (iso_in sub iso_dtc_2020 && (std cfg <? 2020)) eqn:E20; [eexists; reflexivity|].
+  cbn [bind].
+  destruct a as [status severity sevobj cls dtc snap ext memsel fgid esz].
+  cbn [da_status da_severity da_sev_obj da_class da_dtc da_snap da_ext da_memsel da_fgid].
+  rewrite (grp sub "request_subfn_no_param" [10; 11; 12; 13; 14; 20; 21; 3] eq_refl).
+  rewrite (grp sub "request_subfn_status_mask" [1; 2; 15; 17; 18; 19] eq_refl).
+  rewrite (grp sub "request_subfn_mask_record_plus_snapshot_record_number" [4] eq_refl).
+  rewrite (grp sub "request_subfn_mask_record_plus_snapshot_record_number_plus_memory_selection" [24] eq_refl).
+  rewrite (grp sub "request_subfn_snapshot_record_number" [5] eq_refl).
+  rewrite (grp sub "request_subfn_mask_record_plus_extdata_record_number" [6; 16] eq_refl).
+  rewrite (grp sub "request_subfn_mask_record_plus_extdata_record_number_plus_memory_selection" [25] eq_refl).
+  rewrite (grp sub "request_subfn_severity_plus_status_mask" [7; 8] eq_refl).
+  rewrite (grp sub "request_subfn_mask_record" [9] eq_refl).
+  rewrite (grp sub "request_subfn_status_mask_plus_memory_selection" [23] eq_refl).
+  rewrite !iso_in_single.
+  unfold iso_severity_mask.
+  (* the severity mask byte *)
+  destruct cls as [c|]; [destruct severity as [sv|]; [|eexists; reflexivity]|]; cbn [bind ret].
+  all: destruct (iso_in sub [10; 11; 12; 13; 14; 20; 21; 3]) eqn:G1;
+       [cbn [bind ret]; exists 25, true; split; [in_iso|]; apply frame_mk_req_sub_nodata; [in_iso|lia]|].
+  all: destruct (iso_in sub [1; 2; 15; 17; 18; 19]) eqn:G2; [body|].
+  all: destruct (sub =? 4) eqn:G3; [body|].
+  all: destruct (sub =? 24) eqn:G4; [body|].
+  all: destruct (sub =? 5) eqn:G5; [body|].
+  all: destruct (iso_in sub [6; 16]) eqn:G6; [body|].
+  all: destruct (sub =? 25) eqn:G7; [body|].
+  all: destruct (iso_in sub [7; 8]) eqn:G8; [body|].
+  all: destruct (sub =? 9) eqn:G9; [body|].
+  all: destruct (sub =? 23) eqn:G10; [body|].
+  all: destruct (sub =? 22) eqn:G11; [body|].
+  all: destruct (sub =? 66) eqn:G12; [body|].
+  all: destruct (sub =? 85) eqn:G13; [body|].
+  all: exfalso; clear - Eall N26 N86 G1 G2 G3 G4 G5 G6 G7 G8 G9 G10 G11 G12 G13; unfold iso_in, iso_dtc_all in *; cbn [existsb] in *; lia.
+Qed.
+
+Lemma read_dtc_call cfg st sub a now s :
+  read_dtc_information cfg st sub a now s = single_request cfg st (rdtci_make cfg sub a) (rdtci_interpret cfg sub a) no_post now s.
+Proof. reflexivity. Qed.
+
+(* ---- DynamicallyDefineDataIdentifier, defineByIdentifier: any number of source entries --------------------------------- *)
+Definition bydid_enc (e : Z * Z * Z) : M bytes := let '(sd, pos, ms) := e in a <- pack_H sd ;; b <- pack_B pos ;; c <- pack_B ms ;; ret (a ++ b ++ c).
+
+Lemma pack_B_out v : ~ (0 <= v <= 255) -> exists e, pack_B v = inl e.
+Proof. intros H. unfold pack_B, pack_be. destruct ((0 <=? v) && (v <? 256 ^ Z.of_nat 1)) eqn:E; [change (256 ^ Z.of_nat 1) with 256 in E; lia|]. eexists; reflexivity. Qed.
+
+Lemma bydid_entry_ok e d : iso_bydid_entry e = Some d -> bydid_ok e = true /\ bydid_enc e = inr d.
+Proof.
+  destruct e as [[sd pos] ms]. unfold iso_bydid_entry, bydid_ok, bydid_enc, in_u.
+  destruct ((0 <=? sd) && (sd <=? 65535) && ((0 <=? pos) && (pos <=? 255)) && ((0 <=? ms) && (ms <=? 255))) eqn:E; [|discriminate].
+  intros H. injection H as <-. split; [lia|].
+  rewrite pack_H_ok by lia. cbn [bind]. rewrite !pack_B_enc by lia. reflexivity.
+Qed.
+
+Lemma bydid_entry_bad e : iso_bydid_entry e = None -> bydid_ok e = false \/ exists x, bydid_enc e = inl x.
+Proof.
+  destruct e as [[sd pos] ms]. unfold iso_bydid_entry, bydid_ok, bydid_enc, in_u.
+  destruct ((0 <=? sd) && (sd <=? 65535) && ((0 <=? pos) && (pos <=? 255)) && ((0 <=? ms) && (ms <=? 255))) eqn:E; [discriminate|].
+  intros _. destruct ((0 <=? sd) && (sd <=? 65535) && (0 <=? pos) && (0 <=? ms)) eqn:E2; [right|left; reflexivity].
+  rewrite pack_H_ok by lia. cbn [bind].
+  destruct (Z_le_dec pos 255) as [Hp|Hp].
+  - rewrite pack_B_enc by lia. cbn [bind]. destruct (pack_B_out ms ltac:(lia)) as [x Hx]. rewrite Hx. eexists; reflexivity.
+  - destruct (pack_B_out pos ltac:(lia)) as [x Hx]. rewrite Hx. eexists; reflexivity.
+Qed.
+
+Lemma mapM_bydid_ok entries d : iso_cat (map iso_bydid_entry entries) = Some d ->
+  forallb bydid_ok entries = true /\ exists es, mapM bydid_enc entries = inr es /\ List.concat es = d.
+Proof.
+  revert d. induction entries as [|e l IH]; intros d H.
+  - cbn in H. injection H as <-. split; [reflexivity|]. exists []. split; reflexivity.
+  - cbn [map iso_cat fold_right] in H. fold (iso_cat (map iso_bydid_entry l)) in H.
+    destruct (iso_bydid_entry e) as [de|] eqn:Ee; [|discriminate].
+    destruct (iso_cat (map iso_bydid_entry l)) as [dl|] eqn:El; [|discriminate]. injection H as <-.
+    destruct (bydid_entry_ok e de Ee) as [Ho He]. destruct (IH dl eq_refl) as (Hf & es & Hm & Hc).
+    split; [cbn [forallb]; rewrite Ho, Hf; reflexivity|].
+    exists (de :: es). cbn [mapM]. rewrite He. cbn [bind]. rewrite Hm. cbn [bind ret List.concat]. rewrite Hc. split; reflexivity.
+Qed.
+
+Lemma mapM_bydid_bad entries : iso_cat (map iso_bydid_entry entries) = None ->
+  forallb bydid_ok entries = false \/ exists x, mapM bydid_enc entries = inl x.
+Proof.
+  induction entries as [|e l IH]; intros H; [cbn in H; discriminate|].
+  cbn [map iso_cat fold_right] in H. fold (iso_cat (map iso_bydid_entry l)) in H.
+  destruct (iso_bydid_entry e) as [de|] eqn:Ee.
+  - destruct (iso_cat (map iso_bydid_entry l)) as [dl|] eqn:El; [discriminate|].
+    destruct (bydid_entry_ok e de Ee) as [Ho He]. destruct (IH eq_refl) as [Hf|[x Hx]].
+    + left. cbn [forallb]. rewrite Hf. apply andb_false_r.
+    + right. cbn [mapM]. rewrite He. cbn [bind]. rewrite Hx. eexists; reflexivity.
+  - destruct (bydid_entry_bad e Ee) as [Ho|[x Hx]].
+    + left. cbn [forallb]. rewrite Ho. reflexivity.
+    + right. cbn [mapM]. rewrite Hx. eexists; reflexivity.
+Qed.
+
+Theorem define_by_did_agrees st cfg did entries :
+  agrees st (dddi_define_make cfg did (DefByDid entries)) (iso_define_by_did did entries).
+Proof.
+  unfold dddi_define_make, iso_define_by_did. fold bydid_enc.
+  destruct entries as [|e0 l0] eqn:Een.
+  - cbn [forallb guard bind ret]. destruct (validate_int did 0 65535); eexists; reflexivity.
+  - rewrite <- Een. assert (Nat.eqb (List.length entries) 0 = false) as Hl by (subst entries; reflexivity).
+    unfold in_u. destruct ((0 <=? did) && (did <=? 65535)) eqn:Ed.
+    + destruct (iso_cat (map iso_bydid_entry entries)) as [d|] eqn:Ec.
+      * destruct (mapM_bydid_ok entries d Ec) as (Hf & es & Hm & Hc). rewrite Hf. cbn [guard bind ret].
+        rewrite validate_int_in by lia. cbn [bind]. rewrite Hl. cbn [negb guard bind ret]. rewrite pack_H_ok by lia. cbn [bind].
+        change (mapM _ entries) with (mapM bydid_enc entries). rewrite Hm. cbn [bind]. rewrite Hc. exists 44, true. split; [in_iso|]. apply frame_mk_req_sub; [in_iso|lia].
+      * destruct (mapM_bydid_bad entries Ec) as [Hf|[x Hx]].
+        -- rewrite Hf. eexists; reflexivity.
+        -- destruct (forallb bydid_ok entries); [|eexists; reflexivity]. cbn [guard bind ret].
+           rewrite validate_int_in by lia. cbn [bind]. rewrite Hl. cbn [negb guard bind ret]. rewrite pack_H_ok by lia. cbn [bind].
+           change (mapM _ entries) with (mapM bydid_enc entries). rewrite Hx. eexists; reflexivity.
+    + destruct (forallb bydid_ok entries); [|eexists; reflexivity]. cbn [guard bind ret]. rewrite validate_int_out by lia. eexists; reflexivity.
+Qed.
